@@ -270,6 +270,17 @@ func runInventory(p *Program, cx *Contracts, cfg *PropConfig) []*Obligation {
 				bad = append(bad, fmt.Sprintf("%s at %s (%s)", s.Fn, s.Pos, lastName(s.What)))
 			}
 		}
+		// an allowed function may not grow further sites of the kind (the allow list is per function; the count pins it)
+		perFn := map[string]int{}
+		for _, s := range sites {
+			perFn[s.Fn]++
+		}
+		for fn, max := range rule.MaxSites {
+			if perFn[fn] > max {
+				bad = append(bad, fmt.Sprintf("%s has %d sites of this kind, %d on the pinned tree", fn, perFn[fn], max))
+			}
+		}
+		sort.Strings(bad)
 		o := &Obligation{Fn: "inventory", Kind: "inventory", Label: rule.Name, Goal: "true", decls: d, Detail: rule.Reason}
 		o.Solver = "scan"
 		if len(hitFns) == 0 && rule.ExpectNone {
